@@ -397,3 +397,44 @@ def sqrt_inputs(seed=0, tier='quick'):
 
 
 GENS['sqrt_inputs'] = sqrt_inputs
+
+
+def _rects(seed):
+    """complex rectangles (a, b) with members: small pool of real intervals incl. point intervals with long mantissas"""
+    from fractions import Fraction
+    rng = random.Random(seed + 11)
+    pts = [mk(0, 1, 0), mk(1, 3, -1), mk(0, (1 << 51) + 12347, 0), mk(0, 2 * ((1 << 51) + 12347) - 1, 0), mk(0, (1 << 51) + 12345, 0),
+           mk(0, (1 << 52) + 24694 >> 1 << 1 | 1, 0), mk(1, (1 << 70) + 1, -68), mk(0, 5, -3), fzero]
+
+    def v(e):
+        q = Fraction(e[1]) * Fraction(2) ** e[2]
+        return -q if e[0] else q
+    ivs = [((p, p), [v(p)]) for p in pts]
+    ivs += [((mk(1, 1, 0), mk(0, 3, 0)), [Fraction(-1), Fraction(3), Fraction(1)]), ((mk(0, 1, -1), mk(0, 7, 0)), [Fraction(1, 2), Fraction(7)]),
+            ((mk(1, 5, 0), mk(1, 1, -2)), [Fraction(-5), Fraction(-1, 4)]), ((fninf, mk(0, 1, 0)), [Fraction(-100), Fraction(1)]),
+            ((mk(0, 1, 0), finf), [Fraction(1), Fraction(10 ** 6)])]
+    return ivs
+
+
+def mpci2_inputs(seed=0, tier='quick'):
+    ivs = _rects(seed)
+    for a, am in ivs:
+        for b, bm in ivs[::2]:
+            for c, cm in ivs:
+                for d, dm in ivs[1::2]:
+                    for prec in (53, 10):
+                        yield dict(x=(a, b), y=(c, d), prec=prec, xr=am[0], xi=bm[0], yr=cm[0], yi=dm[0])
+                        yield dict(x=(a, b), y=(c, d), prec=prec, xr=am[-1], xi=bm[-1], yr=cm[-1], yi=dm[-1])
+
+
+def mpci1_inputs(seed=0, tier='quick'):
+    ivs = _rects(seed)
+    for a, am in ivs:
+        for b, bm in ivs:
+            for prec in (0, 1, 10, 53):
+                for xr in am:
+                    for xi in bm:
+                        yield dict(x=(a, b), prec=prec, xr=xr, xi=xi)
+
+
+GENS.update({'mpci2_inputs': mpci2_inputs, 'mpci1_inputs': mpci1_inputs})
